@@ -440,6 +440,102 @@ def check_concurrent(sc, obs):
     return bad
 
 
+def herd_labels(sc, obs, tags):
+    """Admissibility of a truly concurrent herd: when the observed times show that every poll was registered before any
+    client was sent and that no poll timer can have fired before the last match, the outcome (who was given whom, who was
+    refused) must be producible by SOME order of the client steps of the model. Removing a poll from a pool never
+    disables another client's step, so a greedy order decides this. Returns None (times do not allow the argument),
+    ("inadmissible", text), or (labels, names) for the replay in the extracted model."""
+    if any(e["kind"] in "LI" for e in sc.events):
+        return None
+    polls = [e for e in sc.events if e["kind"] == "P"]
+    clients = [e for e in sc.events if e["kind"] == "C"]
+    answers = [e for e in sc.events if e["kind"] == "A"]
+
+    def times(key, n):
+        try:
+            v = [int(x) for x in obs.get(key, "").split(":")]
+            return v if len(v) == n and min(v) >= 0 else None
+        except ValueError:
+            return None
+    tp = {e["k"]: times("tP%d" % e["k"], 3) for e in polls}
+    tc = {e["k"]: times("tC%d" % e["k"], 2) for e in clients}
+    if not polls or not clients or any(v is None for v in tp.values()) or any(v is None for v in tc.values()):
+        return None
+    if max(v[1] for v in tp.values()) >= min(v[0] for v in tc.values()):
+        return None
+    by_offer = {}
+    for e in polls:
+        r = obs.get("P%d" % e["k"], "")
+        if r.startswith("match:"):
+            by_offer[r.split(":")[1]] = e["k"]
+        elif r != "nomatch":
+            return None
+    # every match was over before any poll timer could fire
+    last = max([tp[by_offer[c["offer"]]][2] if c["offer"] in by_offer else tc[c["k"]][1] for c in clients])
+    if last >= min(v[0] for v in tp.values()) + TMO - 200:
+        return None
+    order = sorted(polls, key=lambda e: (tp[e["k"]][1], e["k"]))
+    idx = {e["k"]: i for i, e in enumerate(order)}
+    labels = ["P:%d:%s:%d:%d" % (tags(e["sid"]), NATS[e["nat"]], tags(e["ptype"]), e["clients"]) for e in order]
+    names = {"P%d" % i: "P%d" % e["k"] for i, e in enumerate(order)}
+    pool = {e["k"]: e for e in polls}          # still waiting
+    todo = list(clients)
+    ncid = 0
+    matched = []
+    while todo:
+        pick = None
+        for c in todo:
+            cn = c["nat"] if c["nat"] else "unknown"
+            elig = [k for k, q in pool.items() if ((q["nat"] or "unknown") != "unrestricted" if cn == "unrestricted" else (q["nat"] or "unknown") == "unrestricted")]
+            r = obs.get("C%d" % c["k"], "")
+            ch = by_offer.get(c["offer"])
+            if ch is not None:
+                if ch in elig and pool[ch]["clients"] == min(pool[k]["clients"] for k in elig):
+                    pick = (c, ch)
+                    break
+            elif r == "noproxies":
+                if not elig:
+                    pick = (c, None)
+                    break
+            else:
+                return None      # some other outcome (bad fingerprint ...): not a herd this argument covers
+        if pick is None:
+            return ("inadmissible", "no order of the client polls %s explains the outcome: waiting %s, matches %s, refused %s" % (
+                ["C%d" % c["k"] for c in todo], sorted((k, q["nat"], q["clients"]) for k, q in pool.items()),
+                sorted((c["k"], by_offer[c["offer"]]) for c in todo if c["offer"] in by_offer),
+                [c["k"] for c in todo if obs.get("C%d" % c["k"]) == "noproxies"]))
+        c, ch = pick
+        todo.remove(c)
+        names["C%d" % ncid] = "C%d" % c["k"]
+        ncid += 1
+        labels.append("C:%s:%s:%d:%s" % (NATS[c["nat"]], "-" if c["fp"] == "-" else str(tags(c["fp"])), tags(c["offer"]),
+                                         "-" if ch is None else str(idx[ch])))
+        if ch is not None:
+            del pool[ch]
+            matched.append((c, ch))
+    naid = 0
+    for c, ch in matched:
+        p = idx[ch]
+        labels += ["RO:%d" % p, "RF:%d" % p]
+        sid = [e for e in polls if e["k"] == ch][0]["sid"]
+        mine = [a for a in answers if a["sid"] == sid and obs.get("A%d" % a["k"]) in ("ok", "fail")]
+        r = obs.get("C%d" % c["k"], "")
+        if len(mine) > 1 or (mine and obs.get("A%d" % mine[0]["k"]) != "ok") or (r == "timeout") != (not mine):
+            return None          # duplicate / failed answers or an answer racing the client timeout: not covered here
+        if mine:
+            a = mine[0]
+            labels += ["A:%d:%d" % (tags(a["sid"]), tags(a["ans"])), "AP:%d" % p, "TA:%d" % p, "CC:%d" % p]
+            names["A%d" % naid] = "A%d" % a["k"]
+            naid += 1
+        else:
+            labels += ["FC:%d" % p, "CT:%d" % p, "CC:%d" % p]
+    for k in pool:
+        p = idx[k]
+        labels += ["FW:%d" % p, "WT:%d" % p, "WC:%d" % p]
+    return labels, names
+
+
 # ---------------------------------------------------------------- running
 
 def run_scenarios(ctx, scens, props, label):
@@ -463,6 +559,20 @@ def run_scenarios(ctx, scens, props, label):
         for prop, key, text in bad:
             if prop in props:
                 ctx.violation(key, "%s [%s]" % (text, sc.name), dict(label=label, scenario=sc.name, case=line, impl=o))
+        if sc.herd:
+            tags = Tags()
+            hl = herd_labels(sc, obs, tags)
+            ctx.extra["herds_total"] = ctx.extra.get("herds_total", 0) + 1
+            if hl is not None and hl[0] == "inadmissible":
+                if "C03" in props:
+                    ctx.violation("herd-outcome-inadmissible", "%s [%s]" % (hl[1], sc.name), dict(label=label, scenario=sc.name, case=line, impl=o))
+            elif hl is not None:
+                ctx.extra["herds_replayed_in_model"] = ctx.extra.get("herds_replayed_in_model", 0) + 1
+                labels, names = hl
+                # (the relational machine only: which of several equally loaded proxies the array heap hands out depends on the
+                # exact registration order, which a herd does not reveal)
+                mlines.append(model_line(sc, labels, tags))
+                minfo.append((sc, line, o, obs, names, tags))
         if not sc.herd:
             tags = Tags()
             if sc.forced_labels:
@@ -514,8 +624,9 @@ def run_scenarios(ctx, scens, props, label):
                 for prop, key, text in check_history(sc, parse_obs(o)):
                     if prop in props:
                         ctx.violation(key, "%s [%s, GOMAXPROCS=1]" % (text, sc.name), dict(label=label, scenario=sc.name, case=line, impl=o, gomaxprocs=1))
-    ctx.extra["traces_validated_against_impl"] = ctx.extra.get("traces_validated_against_impl", 0) + len(mlines) // 2
-    ctx.extra["traces_validated_against_array_heap_machine"] = ctx.extra.get("traces_validated_against_array_heap_machine", 0) + len(mlines) // 2
+    nir = len([m for m in mlines if m.startswith("broker irun ")])
+    ctx.extra["traces_validated_against_impl"] = ctx.extra.get("traces_validated_against_impl", 0) + len(mlines) - nir
+    ctx.extra["traces_validated_against_array_heap_machine"] = ctx.extra.get("traces_validated_against_array_heap_machine", 0) + nir
 
 
 # ---------------------------------------------------------------- scenario library
